@@ -3,9 +3,10 @@ import ast
 
 from ..core import AnalysisError
 from ..pyfront import Mod, dotted, const_value
-from ..formula import ExprBuilder, Canon, Ratio, Undecided, show, kids
+from ..formula import ExprBuilder, Canon, Ratio, Undecided, show, kids, num
 from ..fneval import FnEval
 from ..poly import Poly
+from .. import pq
 
 EXPLANATION = (
     "The closed forms returned by bias, nse, kge, corr and binary are extracted from stat/metrics.py (locals "
@@ -16,6 +17,15 @@ EXPLANATION = (
     "divisions they protect; every guard of a binary score must hold on the whole domain of 2x2 tables with "
     "positive counts; the confusion matrix orientation must match the unpacking and the padding must restore and "
     "re-order both axes.  Numerical values of numpy/pandas/scipy reducers are trusted.")
+
+OPTIONS = {("bias", "type"): ("'standard'", "'normalised'", "'log'"), ("corr", "type"): ("'Pearson'", "'Spearman'"),
+           ("corr", "stat"): ("'mean'", "'median'")}
+
+
+class _Alt:
+    def __init__(self, conds, value, line):
+        self.conds, self.value, self.line = conds, value, line
+
 
 REF = {
     ("bias", "'standard'"): "(np.mean(ts) - np.mean(to)) / np.mean(to)",
@@ -107,15 +117,30 @@ def run(rep):
             rep.undecided("R04.b", rel, fname, f"{fname}: extraction", str(ex), line=f.lineno)
             continue
         second = "sim" if "sim" in pn else "ens"
-        for p in paths:
+        alts = []
+        for p0 in paths:
+            for wc, val in pq.split_where(p0.value):
+                alts.append(_Alt(list(p0.conds) + wc, val, p0.line))
+        for p in alts:
             if p.value in (('nan',), ('raise',)) or p.value == ('sym', 'None'):
                 continue
             flags = {}
+            options = {"type": OPTIONS.get((fname, "type")), "stat": OPTIONS.get((fname, "stat"))}
+            cand = {k: set(v) for k, v in options.items() if v}
             for c, truth in p.conds:
                 if c == ('sym', 'excludenull'):
                     flags["excludenull"] = truth
-                elif c[0] == 'cmp' and c[1] == '==' and c[2][0] == 'sym' and c[2][1] in ("type", "stat") and truth:
-                    flags[c[2][1]] = c[3][1]
+                elif c[0] == 'cmp' and c[1] in ('==', '!=') and c[2][0] == 'sym' and c[2][1] in cand and c[3][0] == 'sym':
+                    eq = truth if c[1] == '==' else not truth
+                    if eq:
+                        cand[c[2][1]] &= {c[3][1]}
+                    else:
+                        cand[c[2][1]].discard(c[3][1])
+            for k, v in cand.items():
+                if len(v) == 1:
+                    flags[k] = next(iter(v))
+                elif k == "type" and fname == "corr" and "'Pearson'" not in v:
+                    flags[k] = "other"
             excl = flags.get("excludenull", False)
             tkey = flags.get("type")
             if fname == "corr":
@@ -160,16 +185,7 @@ def run(rep):
             need = {"bias": ["np.mean(to)"], "kge": ["np.mean(to)", "np.std(to)", "np.std(ts)"], "corr": ["np.std(to)"], "nse": []}[fname]
             for g in need:
                 gr = cn.ratio(ExprBuilder(ra, rc).build(ast.parse(g, mode="eval").body, {"to": to, "ts": ts}))
-                found = False
-                for c, truth in p.conds:
-                    # abs(X) < EPS false  /  abs(X) > EPS true
-                    if c[0] == 'cmp' and c[2][0] == 'call' and c[2][1] == 'abs':
-                        try:
-                            xr = cn.ratio(c[2][2][0])
-                        except Undecided:
-                            continue
-                        if xr == gr and ((c[1] in ('<', '<=') and not truth) or (c[1] in ('>', '>=') and truth)) and c[3] == ('sym', 'EPS'):
-                            found = True
+                found = any(_excludes_small(c, truth, gr, cn) for c, truth in p.conds)
                 rep.check(found, "R04.e", rel, fname, f"{label}: division by {g} guarded",
                           f"no dominating `abs({g}) < EPS -> nan` guard on this path", line=p.line)
     rep.floor("score formulas compared", nform, 14)
@@ -177,186 +193,264 @@ def run(rep):
     nn = mod.funcs.get("__nonulldata")
     if nn is None:
         raise AnalysisError(f"{rel}: __nonulldata not found")
-    ret = [s for s in nn.body if isinstance(s, ast.Return)]
-    okm = False
-    if ret and isinstance(ret[0].value, ast.Tuple) and len(ret[0].value.elts) == 2:
-        a, b = ret[0].value.elts
-        pa = [x.arg for x in nn.args.args]
-        okm = isinstance(a, ast.Subscript) and isinstance(b, ast.Subscript) and dotted(a.value) == pa[0] and dotted(b.value) == pa[1] and \
-            ast.unparse(a.slice) == ast.unparse(b.slice)
-        if okm:
-            mname = ast.unparse(a.slice)
-            md = [s for s in nn.body if isinstance(s, ast.Assign) and isinstance(s.targets[0], ast.Name) and s.targets[0].id == mname]
-            txt = ast.unparse(md[0].value).replace(" ", "") if md else ""
-            okm = txt in (f"pd.notnull({pa[0]})&pd.notnull({pa[1]})", f"pd.notnull({pa[1]})&pd.notnull({pa[0]})",
-                          f"np.isfinite({pa[0]})&np.isfinite({pa[1]})")
+    pa = [x.arg for x in nn.args.args]
+    npaths = [p_ for p_ in pq.PEval().run(nn) if p_.how == "return"]
+    okm = bool(npaths) and len(pa) == 2
+    for p_ in npaths:
+        v = p_.value
+        ok1 = isinstance(v, tuple) and v[0] == 'tuple' and len(v[1]) == 2 and all(pq.call_named(x, "getitem") for x in v[1])
+        if ok1:
+            (b0, m0), (b1, m1) = v[1][0][2], v[1][1][2]
+            ok1 = b0 == ('sym', pa[0]) and b1 == ('sym', pa[1]) and pq.same(m0, m1) and \
+                (pq.same(m0, f"pd.notnull({pa[0]}) & pd.notnull({pa[1]})") or pq.same(m0, f"np.isfinite({pa[0]}) & np.isfinite({pa[1]})") or
+                 pq.same(m0, f"~pd.isnull({pa[0]}) & ~pd.isnull({pa[1]})") or pq.same(m0, f"~np.isnan({pa[0]}) & ~np.isnan({pa[1]})"))
+        okm = okm and ok1
     rep.check(okm, "R04.a", rel, "__nonulldata", "returns both series indexed by the same mask notnull(a) & notnull(b)", "", line=nn.lineno)
 
     # ---------------- binary ----------------------------------------------------------------------------------------------
     f = mod.func("binary")
-    fe = FnEval(ra, rc)
-    env = {"conf_mat": ('sym', 'cm')}
-    # evaluate with an environment recorder
-    envs = []
-    orig_walk = fe.walk
-
-    def rec_walk(stmts, env_, conds):
-        for s in stmts:
-            if isinstance(s, ast.Return):
-                envs.append((dict(env_), list(conds), s))
-        return orig_walk(stmts, env_, conds)
-    # simpler: re-run builder on the dict literals at each return path
-    paths = []
-
-    def walk(stmts, env_, conds):
-        for i, s in enumerate(stmts):
-            if isinstance(s, ast.Assign):
-                try:
-                    v = fe.b(s.value, env_)
-                except Undecided:
-                    if isinstance(s.value, ast.Dict):
-                        v = ('dict', s.value)
-                        env_["@dict:" + s.targets[0].id] = (s.value, dict(env_))
-                        continue
-                    v = ('sym', '?' + ast.unparse(s.value)[:30])
-                for t in s.targets:
-                    fe.bind(t, v, env_)
-            elif isinstance(s, ast.AugAssign) and isinstance(s.target, ast.Name):
-                op = {ast.Add: 'add', ast.Sub: 'sub', ast.Mult: 'mul', ast.Div: 'div'}[type(s.op)]
-                env_[s.target.id] = (op, env_[s.target.id], fe.b(s.value, env_))
-            elif isinstance(s, ast.If):
-                t = fe.b(s.test, env_)
-                if any(isinstance(x, ast.Raise) for x in s.body) and not s.orelse:
-                    continue
-                walk(list(s.body) + stmts[i + 1:], dict(env_), conds + [(t, True)])
-                walk(list(s.orelse) + stmts[i + 1:], dict(env_), conds + [(t, False)])
-                return
-            elif isinstance(s, ast.Return):
-                paths.append((dict(env_), conds, s))
-                return
-    walk(f.body, env, [])
-    if not paths:
+    bpaths = [p_ for p_ in pq.PEval().run(f, {"conf_mat": ('sym', 'cm0')}) if p_.how == "return"]
+    if not bpaths:
         raise AnalysisError(f"{rel}: binary: no return path")
-    # symbols of the four counts from the unpacking
-    e0 = paths[0][0]
+    # the matrix the counts are read from: np.array(conf_mat, ..) guarded by shape == (2, 2)
+    shape_guard = any(any("shape" in show(c) and ("2" in show(c)) for c, _ in p_.conds) for p_ in bpaths)
+    CM = None
     counts = {}
+    e0 = bpaths[0].env
     for nm in ("TN", "FP", "FN", "TP"):
         if nm not in e0:
             raise AnalysisError(f"{rel}: binary: count `{nm}` not bound by the unpacking of the confusion matrix")
-        counts[nm] = e0[nm]
-    # R04.d orientation: ((TN, FP), (FN, TP)) = conf_mat  <=> TN=cm[0][0], FP=cm[0][1], FN=cm[1][0], TP=cm[1][1]
     want_pos = {"TN": (0, 0), "FP": (0, 1), "FN": (1, 0), "TP": (1, 1)}
+    csym = {}
     for nm, (i, j) in want_pos.items():
-        w = ('call', f'getitem[{j}]', (('call', f'getitem[{i}]', (('sym', 'cm'),)),))
-        rep.check(counts[nm] == w, "R04.d", rel, "binary", f"{nm} = conf_mat[{i}][{j}] (rows observed, columns forecast)",
-                  f"bound to {show(counts[nm])}", line=f.lineno)
+        v = e0[nm]
+        pos = _cm_position(v, shape_guard)
+        rep.check(pos == (i, j), "R04.d", rel, "binary", f"{nm} = conf_mat[{i}][{j}] (rows observed, columns forecast)",
+                  f"bound to {show(v)[:80]}", line=f.lineno)
+        csym[nm] = ('sym', nm)
+    # scores as functions of the four counts: re-evaluate with the counts as symbols
+    class CountEval(pq.PEval):
+        def bind(self, t, v, env, effects, conds, line):
+            super().bind(t, v, env, effects, conds, line)
+            for nm in want_pos:
+                if nm in env and env[nm] != ('sym', nm) and all(n_ in env for n_ in want_pos) and not getattr(self, "_done", False):
+                    pass
+
+    def with_counts(paths_):
+        out = []
+        for p_ in paths_:
+            out.append(p_)
+        return out
+    # substitute the bound count expressions by symbols in every value of the returning paths
+    repl = {show(e0[nm]): ('sym', nm) for nm in want_pos}
+
+    def subst(e):
+        if not isinstance(e, tuple) or not e or not isinstance(e[0], str):
+            return e
+        k_ = show(e)
+        if k_ in repl:
+            return repl[k_]
+        if e[0] in ('sym', 'num', 'nan', 'x'):
+            return e
+        out = [e[0]]
+        for c in e[1:]:
+            if isinstance(c, tuple) and c and isinstance(c[0], str):
+                out.append(subst(c))
+            elif isinstance(c, tuple):
+                out.append(tuple(subst(x) if isinstance(x, tuple) and x and isinstance(x[0], str) else
+                                 (tuple(subst(y) if isinstance(y, tuple) else y for y in x) if isinstance(x, tuple) else x) for x in c))
+            else:
+                out.append(c)
+        return tuple(out)
     cn = Canon()
-    possyms = {str(cn.ratio(counts[nm]).n).strip() for nm in counts}
-    refenv = dict(counts)
+    possyms = set(want_pos)
     seen = {}
-    ncmp = 0
-    for env_, conds, ret in paths:
-        # the first returned name is the scores dict
-        rv = ret.value
-        nm = rv.elts[0].id if isinstance(rv, ast.Tuple) and isinstance(rv.elts[0], ast.Name) else None
-        if nm is None or "@dict:" + nm not in env_:
-            raise AnalysisError(f"{rel}: binary: scores dictionary literal not found")
-        dnode, denv = env_["@dict:" + nm]
-        for k, v in zip(dnode.keys, dnode.values):
-            key = const_value(k)
+    guards = {}
+    for p_ in bpaths:
+        v = p_.value
+        dct = v[1][0] if isinstance(v, tuple) and v[0] == 'tuple' else v
+        if not pq.call_named(dct, "dict"):
+            raise AnalysisError(f"{rel}: binary: scores dictionary not found in the returned value")
+        keys, vals = dct[2][0][1], dct[2][1][1]
+        for k_, val in zip(keys, vals):
+            key = k_[1].strip("'\"") if k_[0] == 'sym' else None
             if key not in BINARY_REF:
                 continue
-            try:
-                got = cn.ratio(fe.b(v, denv))
-                want = cn.ratio(ExprBuilder(ra, rc).build(ast.parse(BINARY_REF[key], mode="eval").body, refenv))
-            except Undecided as ex:
-                rep.undecided("R04.b", rel, "binary", f"score '{key}'", str(ex), line=v.lineno)
-                continue
-            isnan = got == Ratio.sym('nan')
-            # guards governing this key on this path: the conds under which the variable was (not) assigned
-            seen.setdefault(key, {"def": None, "nan_paths": 0, "ok": True, "line": v.lineno})
-            if isnan:
-                seen[key]["nan_paths"] += 1
-            else:
-                ncmp += 1
-                if not got == want:
-                    seen[key]["ok"] = False
-                    seen[key]["got"] = show(fe.b(v, denv))[:120]
-    for key, st in sorted(seen.items()):
-        rep.check(st["ok"], "R04.b", rel, "binary", f"score '{key}' == {BINARY_REF[key]}",
-                  f"computed as {st.get('got', '')}", line=st["line"])
-    rep.floor("binary scores compared", len(seen), 14)
-    # R04.c guards: every `if` test in binary (except the shape check) must hold when the four counts are positive
-    e_last = paths[0][0]
-    tests = []
-    for s in ast.walk(f):
-        if isinstance(s, ast.If) and not any(isinstance(x, ast.Raise) for x in s.body):
-            tests.append(s)
-    for s in tests:
-        # environment just before the test: rebuild by walking top-level statements up to it
-        env_b = dict(env)
-        for st in f.body:
-            if st is s:
-                break
-            if isinstance(st, ast.Assign):
-                try:
-                    v = fe.b(st.value, env_b)
-                except Undecided:
+            st = seen.setdefault(key, {"ok": True, "line": p_.line, "cmp": 0})
+            for wc, alt in pq.split_where(subst(val)):
+                for c, t in list(p_.conds) + wc:
+                    guards.setdefault(show(subst(c)), (subst(c), key))
+                if alt == ('nan',):
                     continue
-                for t in st.targets:
-                    fe.bind(t, v, env_b)
-        target = [x.targets[0].id for x in s.body if isinstance(x, ast.Assign) and isinstance(x.targets[0], ast.Name)]
-        label = f"guard of {', '.join(target) or '?'}: `{ast.unparse(s.test)}`"
-        conj = s.test.values if isinstance(s.test, ast.BoolOp) and isinstance(s.test.op, ast.And) else [s.test]
-        bad = []
-        und = None
-        for c in conj:
-            if not (isinstance(c, ast.Compare) and len(c.ops) == 1):
-                und = f"guard form {ast.unparse(c)}"
+                try:
+                    got = cn.ratio(alt)
+                    want = cn.ratio(pq.parse(BINARY_REF[key], {nm: ('sym', nm) for nm in want_pos}))
+                except Undecided as ex:
+                    rep.undecided("R04.b", rel, "binary", f"score '{key}'", str(ex), line=p_.line)
+                    continue
+                st["cmp"] += 1
+                if got != want:
+                    st["ok"] = False
+                    st["got"] = show(alt)[:120]
+    for key, st in sorted(seen.items()):
+        rep.check(st["ok"] and st["cmp"] > 0, "R04.b", rel, "binary", f"score '{key}' == {BINARY_REF[key]}",
+                  f"computed as {st.get('got', '')}" if st["cmp"] else "only NaN is ever stored", line=st["line"])
+    rep.floor("binary scores compared", len(seen), 14)
+    # R04.c: every test met in binary (statement or conditional expression), except the shape check, holds for four positive counts
+    for gtxt, (g, key) in sorted(guards.items()):
+        if "shape" in gtxt:
+            continue
+        bad, und = [], None
+        for cj in _conjuncts(g):
+            if cj[0] != 'cmp' or cj[1] not in ('<', '<=', '>', '>='):
+                und = f"guard form {show(cj)[:60]}"
                 break
             try:
-                a, b = cn.ratio(fe.b(c.left, env_b)), cn.ratio(fe.b(c.comparators[0], env_b))
+                a_, b_ = cn.ratio(cj[2]), cn.ratio(cj[3])
             except Undecided as ex:
                 und = str(ex)
                 break
-            op = c.ops[0]
-            d = (a - b) if isinstance(op, (ast.Gt, ast.GtE)) else (b - a) if isinstance(op, (ast.Lt, ast.LtE)) else None
-            if d is None:
-                und = "comparison operator"
-                break
+            d = (a_ - b_) if cj[1] in ('>', '>=') else (b_ - a_)
             if not positive_ratio(d, possyms):
-                bad.append(ast.unparse(c))
+                bad.append(show(cj)[:80])
+        label = f"guard `{gtxt[:100]}`"
         if und:
-            rep.undecided("R04.c", rel, "binary", label, und, line=s.lineno)
+            rep.undecided("R04.c", rel, "binary", label, und, line=f.lineno)
         else:
             rep.check(not bad, "R04.c", rel, "binary", label,
-                      f"`{' and '.join(bad)}` does not hold for every table with four positive counts: the score is left NaN on part of its domain", line=s.lineno)
+                      f"`{' and '.join(bad)}` does not hold for every table with four positive counts: the score is left NaN on part of its domain", line=f.lineno)
     # ---------------- confusion matrix --------------------------------------------------------------------------------------------
     cmf = mod.func("confusion_matrix")
-    ct = [n for n in ast.walk(cmf) if isinstance(n, ast.Call) and dotted(n.func) == "pd.crosstab"]
-    okct = len(ct) == 1 and [ast.unparse(a) for a in ct[0].args[:2]] == ["obs", "sim"]
-    rep.check(okct, "R04.d", rel, "confusion_matrix", "pd.crosstab(obs, sim): rows observed, columns forecast", ast.unparse(ct[0]) if ct else "", line=cmf.lineno)
-    loop = [n for n in ast.walk(cmf) if isinstance(n, ast.For) and "range(ncat)" in ast.unparse(n.iter)]
-    addcol = addrow = False
-    if loop:
-        for s in ast.walk(loop[0]):
-            if isinstance(s, ast.If) and isinstance(s.test, ast.Compare) and isinstance(s.test.ops[0], ast.NotIn):
-                where = ast.unparse(s.test.comparators[0])
-                tgt = [ast.unparse(x.targets[0]).replace(" ", "") for x in s.body if isinstance(x, ast.Assign)]
-                var = ast.unparse(s.test.left)
-                if where.endswith(".columns") and f"cm.loc[:,{var}]" in tgt:
-                    addcol = True
-                if where.endswith(".index") and f"cm.loc[{var},:]" in tgt:
-                    addrow = True
+    cpaths = [p_ for p_ in pq.PEval().run(cmf) if p_.how == "return"]
+    FULL = ('call', 'slice', (('sym', 'None'),) * 3)
+    plain = [p_ for p_ in cpaths if pq.call_named(p_.value, ".crosstab")]
+    okct = bool(plain)
+    for p_ in plain:
+        a_ = p_.value[2]
+        okct = okct and len(a_) >= 3 and pq.mentions(a_[1], lambda e: e == ('sym', 'obs')) and not pq.mentions(a_[1], lambda e: e == ('sym', 'sim')) and \
+            pq.mentions(a_[2], lambda e: e == ('sym', 'sim')) and not pq.mentions(a_[2], lambda e: e == ('sym', 'obs'))
+    rep.check(okct, "R04.d", rel, "confusion_matrix", "pd.crosstab(obs, sim): rows observed, columns forecast", show(plain[0].value)[:120] if plain else "", line=cmf.lineno)
+    padded = [p_ for p_ in cpaths if p_ not in plain and any(c == ('call', 'is', (('sym', 'ncat'), ('sym', 'None'))) and not t for c, t in p_.conds)]
+    addcol = addrow = rcol = rrow = False
+    for p_ in padded:
+        for e in p_.effects:
+            if e.kind != 'store' or not e.target.endswith(".loc") or not pq.same(e.val, "0") or not (isinstance(e.key, tuple) and e.key[0] == 'tuple' and len(e.key[1]) == 2):
+                continue
+            k0, k1 = e.key[1]
+            elem = k1 if k0 == FULL else k0 if k1 == FULL else None
+            if elem is None or not pq.same(elem, ('call', 'elem', (pq.parse("range(ncat)"),))):
+                continue
+            axis = "columns" if k0 == FULL else "index"
+            missing = any(t and c[0] == 'not' and pq.call_named(c[1], "in") and pq.same(c[1][2][0], elem) and
+                          pq.call_named(c[1][2][1], "attr:" + axis) for c, t in e.conds)
+            if missing and axis == "columns":
+                addcol = True
+            if missing and axis == "index":
+                addrow = True
+        # returned table: .loc[:, arange(ncat)] and .loc[arange(ncat), :] applied (in either order)
+        v = p_.value
+        AR = pq.parse("np.arange(ncat)")
+        while pq.call_named(v, "getitem") and pq.call_named(v[2][0], "attr:loc"):
+            idx = v[2][1]
+            if isinstance(idx, tuple) and idx[0] == 'tuple' and len(idx[1]) == 2 and idx[1][0] == FULL and pq.same(idx[1][1], AR):
+                rcol = True
+            elif pq.same(idx, AR):
+                rrow = True
+            v = v[2][0][2][0]
+        for meth, ax in ((".sort_index", None), (".reindex", None)):
+            pass
     rep.check(addcol and addrow, "R04.d", rel, "confusion_matrix", "padding adds the missing column and the missing row of every category below ncat",
               f"column added: {addcol}, row added: {addrow}", line=cmf.lineno)
-    reorder = [ast.unparse(n.value).replace(" ", "") for n in ast.walk(cmf) if isinstance(n, ast.Assign) and isinstance(n.targets[0], ast.Name)
-               and n.targets[0].id == "cm" and isinstance(n.value, (ast.Subscript, ast.Call))]
-    rcol = any(x in ("cm.loc[:,np.arange(ncat)]",) or "sort_index(axis=1)" in x or ("reindex" in x and "columns" in x) for x in reorder)
-    rrow = any(x in ("cm.loc[np.arange(ncat),:]",) or x.endswith("sort_index()") or "sort_index(axis=0)" in x or ("reindex" in x and "index" in x) for x in reorder)
     rep.check(rcol and rrow, "R04.d", rel, "confusion_matrix", "padded table re-ordered along both axes (categories ascending)",
               f"columns re-ordered: {rcol}, rows re-ordered: {rrow}", line=cmf.lineno)
     return EXPLANATION
+
+
+def _excludes_small(c, truth, gr, cn):
+    """the recorded (condition, truth) establishes that X (ratio gr) is NOT within EPS of zero:
+       abs(X) < EPS false | abs(X) > EPS true | (-EPS < X and X < EPS) false | (X <= -EPS or X >= EPS) true"""
+    EPSR = Ratio.sym('EPS')
+
+    def is_x(e):
+        try:
+            return cn.ratio(e) == gr
+        except Undecided:
+            return False
+
+    def is_eps(e, sign=1):
+        try:
+            return cn.ratio(e) == (EPSR if sign > 0 else -EPSR)
+        except Undecided:
+            return False
+    if c[0] == 'not':
+        return _excludes_small(c[1], not truth, gr, cn)
+    if c[0] == 'cmp' and c[2][0] == 'call' and c[2][1] == 'abs' and is_x(c[2][2][0]) and is_eps(c[3]):
+        return (c[1] in ('<', '<=') and not truth) or (c[1] in ('>', '>=') and truth)
+    if c[0] == 'cmp' and c[3][0] == 'call' and c[3][1] == 'abs' and is_x(c[3][2][0]) and is_eps(c[2]):
+        return (c[1] in ('>', '>=') and not truth) or (c[1] in ('<', '<=') and truth)
+    if c[0] == 'and' and not truth:
+        # -EPS < X and X < EPS  (either order, either orientation)
+        lo = hi = False
+        for part in (c[1], c[2]):
+            if part[0] != 'cmp':
+                return False
+            op, a, b = part[1], part[2], part[3]
+            if op in ('>', '>='):
+                a, b, op = b, a, {'>': '<', '>=': '<='}[op]
+            if op in ('<', '<='):
+                if is_eps(a, -1) and is_x(b):
+                    lo = True
+                if is_x(a) and is_eps(b):
+                    hi = True
+        return lo and hi
+    if c[0] == 'or' and truth:
+        lo = hi = False
+        for part in (c[1], c[2]):
+            if part[0] != 'cmp':
+                return False
+            op, a, b = part[1], part[2], part[3]
+            if op in ('>', '>='):
+                a, b, op = b, a, {'>': '<', '>=': '<='}[op]
+            if op in ('<', '<='):
+                if is_x(a) and is_eps(b, -1):
+                    lo = True
+                if is_eps(a) and is_x(b):
+                    hi = True
+        return lo and hi
+    return False
+
+
+def _conjuncts(e):
+    if e[0] == 'and':
+        return _conjuncts(e[1]) + _conjuncts(e[2])
+    return [e]
+
+
+def _cm_position(v, shape_guard):
+    """(row, col) of the 2x2 matrix an unpacked count reads: m[i][j], m[i, j], or element 2i+j of ravel()/flatten() of a matrix
+    whose shape is checked to be (2, 2)"""
+    def const(e):
+        try:
+            r = Canon().ratio(e)
+            return int(r.cval()) if r.is_const() and r.cval().denominator == 1 else None
+        except Exception:
+            return None
+    if pq.call_named(v, "getitem"):
+        base, idx = v[2]
+        if pq.call_named(base, "getitem"):
+            i, j = const(base[2][1]), const(idx)
+            if i is not None and j is not None:
+                return (i, j)
+        if isinstance(idx, tuple) and idx[0] == 'tuple' and len(idx[1]) == 2:
+            i, j = const(idx[1][0]), const(idx[1][1])
+            if i is not None and j is not None:
+                return (i, j)
+        k_ = const(idx)
+        if k_ is not None and isinstance(base, tuple) and base[0] == 'call' and base[1] in ("ravel", "flatten") and shape_guard:
+            return (k_ // 2, k_ % 2)
+        if k_ is not None and pq.call_named(base, "reshape") and shape_guard and const(base[2][1]) == -1:
+            return (k_ // 2, k_ % 2)
+    return None
 
 
 def ens_prepared(f):
